@@ -169,6 +169,61 @@ theorem not_found_is_empty (retries : Nat) (r : Resp) (rest : List Resp) (h : r.
   | zero => simp [scanPage, pageOf, h]
   | succ n => simp [scanPage, pageOf, h5, h]
 
+
+/-! ### histories over one wheel directory (several locations advertising one file name) -/
+
+/-- **ask_gives_advertised**: whatever the wheel directory holds under the file's name - nothing, the same content, the
+content another location advertised a moment ago, a truncated file - an honest answer to a link that advertises a
+digest leaves a file with exactly that digest there (reused if it already had it, fetched otherwise) -/
+theorem ask_gives_advertised (dir : Dir) (link : Link) (server : Resp) (s : Digest)
+    (hs : link.sha = some s) (hhonest : sha server.body = s) (hok : server.status < 400) :
+    ∃ dir' cached req, doDownload sha dir link server = .done dir' cached req ∧
+      ∃ c, dir'.get link.fn = some c ∧ sha c = s ∧ (cached = true → dir' = dir) := by
+  have hge : ¬ server.status ≥ 400 := by omega
+  unfold doDownload
+  cases hc : dir.get link.fn with
+  | none =>
+    simp only [hs, hge, if_false]
+    exact ⟨_, false, true, rfl, server.body, get_put_same _ _ _, hhonest, by simp⟩
+  | some c =>
+    simp only [hs]
+    by_cases he : sha c = s
+    · simp only [he, if_true]
+      exact ⟨dir, true, false, rfl, c, hc, he, fun _ => rfl⟩
+    · simp only [he, if_false, hge]
+      exact ⟨_, false, true, rfl, server.body, get_put_same _ _ _, hhonest, by simp⟩
+
+/-- one request of a history: the directory afterwards (a transfer error leaves what `doDownload` left) -/
+def askDir (dir : Dir) (a : Link × Resp) : Dir :=
+  match doDownload sha dir a.1 a.2 with
+  | .done d _ _ => d
+  | .transferError d => d
+
+/-- **history_last_ask_wins**: after any sequence of requests over one wheel directory - other locations, other
+contents under the same name, in any order - an honest answer to the last one leaves the content *it* advertised -/
+theorem history_last_ask_wins (dir : Dir) (before : List (Link × Resp)) (link : Link) (server : Resp) (s : Digest)
+    (hs : link.sha = some s) (hhonest : sha server.body = s) (hok : server.status < 400) :
+    ∃ c, ((before ++ [(link, server)]).foldl (askDir sha) dir).get link.fn = some c ∧ sha c = s := by
+  rw [List.foldl_append]
+  obtain ⟨d', cached, req, hd, c, hc, hsc, _⟩ := ask_gives_advertised sha (before.foldl (askDir sha) dir) link server s hs hhonest hok
+  refine ⟨c, ?_, hsc⟩
+  simp only [List.foldl_cons, List.foldl_nil, askDir, hd]
+  exact hc
+
+/-- non-vacuity: content A verified for one location, then another location advertises B under the same name -/
+example : ([(({ fn := "f.whl", sha := some 3 } : Link), ({ status := 200, body := [1, 2] } : Resp)),
+            ({ fn := "f.whl", sha := some 7 }, { status := 200, body := [3, 4] })].foldl (askDir (fun c => c.sum)) [("f.whl", [1, 2])]).get "f.whl"
+    = some [3, 4] := by decide
+
+/-- what the round-8 seeded change did (a set of "already verified" paths): in model form the second request is
+answered from the directory although the digests differ - the statement above fails for that function -/
+def doDownloadMemo (sha : Content → Digest) (verified : List String) (dir : Dir) (link : Link) (server : Resp) : DL :=
+  if verified.contains link.fn then .done dir true false else doDownload sha dir link server
+
+theorem memo_by_path_serves_other_content :
+    doDownloadMemo (fun c => c.sum) ["f.whl"] [("f.whl", [1, 2])] { fn := "f.whl", sha := some 7 } { status := 200, body := [3, 4] }
+      = .done [("f.whl", [1, 2])] true false := by decide
+
 /-- non-vacuity: a truncated file (a proper prefix of the advertised content) is replaced -/
 example : doDownload (fun c => c.sum) [("foo-1.0.whl", [1, 2])] { fn := "foo-1.0.whl", sha := some 10 } { status := 200, body := [1, 2, 3, 4] }
     = .done [("foo-1.0.whl", [1, 2, 3, 4])] false true := by decide
